@@ -73,8 +73,8 @@ def plant(fault, level, delta, w, n):
     elif fault == 13:  # orphan signal (no owner / other owner)
         add(Inst("bad", cell, {"a": Orphan(0 if delta > 0 else 1, w), "b": g}))
     elif fault == 14:  # orphan inside a concatenation / anonymous bundle
-        if delta > 0:
-            add(Inst("bad", cell, {"a": bus, "b": Slc(Cat((Orphan(0, 1), g)), 0, 1)}))
+        if delta > 0:  # the foreign signal is NOT the first part of the concatenation
+            add(Inst("bad", cell, {"a": bus, "b": Slc(Cat((g, Orphan(0, 1), g)), 1, 2)}))
         else:
             add(Inst("bad", bleaf, {"b": Anon((("x", Sig("k")), ("y", Orphan(1, 1)))), "g": g}))
     elif fault == 15:  # no-connect that is also referenced
@@ -167,3 +167,25 @@ def base_accepted(w, n):
     ok = _accepts(top, "to_proto") and _accepts(top, "netlist") and _accepts(top, "elaborate")
     env.reached()
     return v and ok
+
+
+@harness("C06", args="fault: int, level: int, delta: int, w: int", pre=[f"0 <= fault < {NFAULT}", "0 <= level <= 1", "delta != 0 and -1 <= delta <= 1", "1 <= w <= 2", "w + delta >= 1"],
+         tiers={"quick": {"timeout": 170, "pre": ["w == 2"], "parts": [("lo", "fault < 8"), ("mid", "8 <= fault < 15"), ("hi", "fault >= 15")]},
+                "thorough": {"timeout": 600, "parts": parts_over("fault", range(NFAULT))}},
+         sample=(14, 0, 1, 2),
+         bounds="C06 on the fault planter's designs: whenever to_proto RETURNS for a mutated design (it should not: C02), the returned package must still be closed and self-consistent",
+         generalises="fault class / location / delta / width", outside="")
+def mutated_designs_closed(fault, level, delta, w):
+    from vlib.pkgread import check_package
+    top = plant(fault, level, delta, w, 2)
+    env.reset_all()
+    try:
+        pkg = h.to_proto(build(top))
+    except Exception:
+        env.reached()
+        return True
+    env.reached()
+    with env.notrace():
+        probs = check_package(pkg)
+        WHY["why"] = "; ".join(probs[:3])
+        return not probs
